@@ -25,6 +25,14 @@ Section Exp.
                 | (Ret _, _, _) => nest_exp sid t r
                 | (Exc e, trk, ek) => (Exc e, above sid t e trk ek, e) end end.
 
+  (* And: the first failing child, like a dict spec; the value of the last child otherwise *)
+  Fixpoint and_exp (sid t : nat) (kids : list tspec) (last : nat) : out * list tr * nat :=
+    match kids with
+    | [] => (Ret last, [], 0)
+    | k :: r => match rec k t with
+                | (Ret v, _, _) => and_exp sid t r v
+                | (Exc e, trk, ek) => (Exc e, above sid t e trk ek, e) end end.
+
   (* tuple: steps done so far hang under each other, top frames only; [done] lists them (newest last) *)
   Fixpoint chain_exp (cur : nat) (done : list (nat * nat)) (steps : list tspec) : out * list tr * nat :=
     match steps with
@@ -111,6 +119,7 @@ Fixpoint exp (fuel : nat) (s : tspec) (t : nat) : out * list tr * nat :=
       match exp fuel kid t with
       | (Ret _, _, _) => (Exc (6000 + n), [TR n t (Some (6000 + n)) []], 6000 + n)
       | (Exc _, _, _) => (Ret t, [], 0) end
+  | AndS n kids => and_exp (exp fuel) n t kids t
   end end.
 
 Definition expected (s : tspec) : out * list tr := let '(o, trs, _) := exp (S (tdepth s)) s root_target in (o, trs).
@@ -154,6 +163,7 @@ Fixpoint relabel (fuel : nat) (s : tspec) (n : nat) : tspec * nat :=
   | Guard _ ok k => let '(k', m) := relabel fuel k (S n) in (Guard n ok k', m)
   | AltD _ l => let '(l', m) := many l (S n) in (AltD n l', m)
   | NotS _ k => let '(k', m) := relabel fuel k (S n) in (NotS n k', m)
+  | AndS _ l => let '(l', m) := many l (S n) in (AndS n l', m)
   end end.
 Definition numbered (s : tspec) : tspec := fst (relabel 10 s 1).
 
